@@ -3,11 +3,14 @@
 
 mod allocseam;
 mod c01;
+#[cfg(feature = "engine-std")]
 mod c02;
 mod c03;
 mod c04;
+#[cfg(feature = "engine-std")]
 mod c05;
 mod c06;
+#[cfg(feature = "engine-std")]
 mod c07;
 mod c15;
 mod c16;
@@ -21,6 +24,8 @@ mod disk;
 mod framework;
 mod json;
 mod mirror;
+#[cfg(feature = "engine-shuttle")]
+mod mt;
 mod prng;
 mod program;
 mod rm_rows;
@@ -28,6 +33,7 @@ mod rm_verify;
 mod scenario;
 mod seams;
 mod strict;
+#[cfg(feature = "engine-std")]
 mod wfault;
 
 use std::collections::BTreeMap;
@@ -43,11 +49,14 @@ static GLOBAL: allocseam::Counting = allocseam::Counting;
 fn prop_fn(id: &str) -> Option<(&'static str, PropFn)> {
     Some(match id {
         "C01" => ("C01", c01::run as PropFn),
+        #[cfg(feature = "engine-std")]
         "C02" => ("C02", c02::run as PropFn),
         "C03" => ("C03", c03::run as PropFn),
         "C04" => ("C04", c04::run as PropFn),
+        #[cfg(feature = "engine-std")]
         "C05" => ("C05", c05::run as PropFn),
         "C06" => ("C06", c06::run as PropFn),
+        #[cfg(feature = "engine-std")]
         "C07" => ("C07", c07::run as PropFn),
         "C15" => ("C15", c15::run as PropFn),
         "C16" => ("C16", c16::run as PropFn),
@@ -90,6 +99,32 @@ fn main() {
     match cmd {
         "run" => cmd_run(&args),
         "replay" => cmd_replay(&args),
+        #[cfg(feature = "engine-shuttle")]
+        "mt" => {
+            let seed = get_u64(&args, "seed", 20260923);
+            let thorough = args.kv.get("tier").map(|t| t == "thorough").unwrap_or(false);
+            let shard = args.kv.get("shard").cloned().unwrap_or_else(|| "0/1".into());
+            let (si, sn) = shard.split_once('/').map(|(i, n)| (i.parse::<u64>().unwrap(), n.parse::<u64>().unwrap())).unwrap_or((0, 1));
+            let budget_s = args.kv.get("budget-s").and_then(|v| v.parse::<f64>().ok()).unwrap_or(1e9);
+            mt::cmd_mt(
+                seed,
+                thorough,
+                (si, sn),
+                get_u64(&args, "runs", 8),
+                args.kv.get("out").map(|s| s.as_str()).unwrap_or("/dev/stdout"),
+                args.kv.get("replay-dir").map(|s| s.as_str()).unwrap_or("."),
+                budget_s,
+            )
+        }
+        #[cfg(feature = "engine-shuttle")]
+        "mt-replay" => mt::cmd_mt_replay(
+            get_u64(&args, "seed", 20260923),
+            get_u64(&args, "run", 0),
+            args.kv.get("tier").map(|t| t == "thorough").unwrap_or(false),
+            args.kv.get("schedule").map(|s| s.as_str()).unwrap_or(""),
+        ),
+        #[cfg(feature = "engine-shuttle")]
+        "mt-selfcheck" => mt::cmd_mt_selfcheck(get_u64(&args, "seed", 20260923)),
         _ => {
             eprintln!("usage: plonksim run|replay <PROP> --seed S --tier quick|thorough ...");
             std::process::exit(2);
